@@ -158,11 +158,23 @@ fn normal_form(ast: Ast) -> (Vec<String>, Vec<String>) {
         for t in tr.leading_trivia() { classify(t, &mut ignore, &mut comments) }
         for t in tr.trailing_trivia() { classify(t, &mut ignore, &mut comments) }
     }
+    // Node::tokens() walks the fields of a node in declaration order, which is not the source order for every node (a local
+    // assignment lists its Luau type annotations and its attributes in front of its names): a second stream, sorted by position and
+    // without `(` `)` `;` `,` (the tokens the allowed differences add or remove), shows WHICH name an annotation or attribute belongs to
+    let mut by_pos: Vec<(usize, String)> = vec![];
+    for tr in ast.nodes().tokens() {
+        let (mut one, mut none) = (vec![], vec![]);
+        classify(tr.token(), &mut one, &mut none);
+        if let Some(t) = one.pop() { if !matches!(t.as_str(), "(" | ")" | ";" | ",") { by_pos.push((tr.token().start_position().bytes(), t)) } }
+    }
+    by_pos.sort_by_key(|x| x.0);
     let ast = Normalise.visit_ast(ast);
     let (mut toks, mut ignore2) = (vec![], vec![]);
     for tr in ast.nodes().tokens().chain(std::iter::once(ast.eof())) {
         classify(tr.token(), &mut toks, &mut ignore2);
     }
+    toks.push("<in source order>".into());
+    toks.extend(by_pos.into_iter().map(|x| x.1));
     // (semicolons: one behind every statement, see visit_block_end; table separators: normalised by visit_table_constructor_end)
     (toks, comments)
 }
@@ -596,6 +608,10 @@ fn corpus_ignore(args: &[String]) {
             let indent = &src[ls..a];
             let directive = format!("{}-- stylua: ignore\n", indent);
             cases.push((format!("ignore@{a}"), format!("{}{}{}", &src[..ls], directive, &src[ls..]), src[a..b].to_string(), None));
+            // the directive counts wherever it stands among the comments above the statement: here another comment line follows it
+            if top.contains(&(a, b)) {
+                cases.push((format!("ignore+comment@{a}"), format!("{}{}{}-- luacheck: ignore 631\n{}", &src[..ls], directive, indent, &src[ls..]), src[a..b].to_string(), None));
+            }
             // the directive wins over the range: with the range set to a statement nested in the ignored one, it still comes out verbatim
             if let Some((c, d)) = all_spans.iter().find(|(c, d)| a < *c && *d < b) {
                 cases.push((format!("ignore@{a}+range@{c}"), format!("{}{}{}", &src[..ls], directive, &src[ls..]), src[a..b].to_string(), Some((c + directive.len(), d + directive.len()))));
